@@ -93,7 +93,11 @@ func conformantLogout(rng *rand.Rand, sp *spsim.SPDesc) *spsim.LogoutReq {
 	if rng.Intn(3) == 0 {
 		l.NameIDFormat = "urn:oasis:names:tc:SAML:1.1:nameid-format:emailAddress"
 	}
-	for i := rng.Intn(3); i > 0; i-- {
+	ns := rng.Intn(3)
+	if rng.Intn(20) == 0 {
+		ns = 10 + rng.Intn(30)
+	}
+	for i := ns; i > 0; i-- {
 		l.SessionIndex = append(l.SessionIndex, newID(rng))
 	}
 	return l
@@ -171,7 +175,11 @@ func conformantQuery(rng *rand.Rand, sp *spsim.SPDesc, login string) *spsim.Attr
 		q.SubjectFormat = "urn:oasis:names:tc:SAML:1.1:nameid-format:emailAddress"
 	}
 	names := []string{"Email", "SurName", "FirstName", "FullName", "UserName", "UserID", "Unknown"}
-	for i := rng.Intn(4); i > 0; i-- {
+	nq := rng.Intn(4)
+	if rng.Intn(20) == 0 {
+		nq = 10 + rng.Intn(40)
+	}
+	for i := nq; i > 0; i-- {
 		a := spsim.QAttr{Name: names[rng.Intn(len(names))], NameFormat: basicFormat}
 		if rng.Intn(4) == 0 {
 			a.Friendly = "f" + plainString(rng, 3)
